@@ -28,6 +28,11 @@ pub struct Knobs {
     pub v_width: u8,
     pub io_order: u8,
     pub crlf: bool,
+    /// KiB of diagnostics the solver prints on stderr, and when (0 before reading, 1 before the reply, 2 after it)
+    #[serde(default)]
+    pub stderr_kib: u16,
+    #[serde(default)]
+    pub stderr_when: u8,
 }
 
 pub fn io_name(k: u8) -> &'static str {
@@ -44,6 +49,8 @@ impl Knobs {
             "v_width": self.v_width,
             "io_order": io_name(self.io_order),
             "crlf": self.crlf,
+            "stderr_bytes": self.stderr_kib as usize * 1024,
+            "stderr_when": self.stderr_when % 3,
         })
     }
     pub fn reply_padding(&self) -> usize {
@@ -59,8 +66,9 @@ pub fn knobs() -> BoxedStrategy<Knobs> {
         2 => 200u16..1200,
         1 => 1200u16..4000,
     ];
-    (count.clone(), prop_oneof![4 => Just(0u16), 1 => 0u16..2000], prop_oneof![4 => Just(0u16), 1 => 0u16..2000], 2u8..200, 0u8..40, 0u8..4, any::<bool>())
-        .prop_map(|(b, m, a, l, w, o, crlf)| Knobs {
+    let noise = prop_oneof![16 => Just(0u16), 2 => 1u16..48, 1 => 65u16..260];
+    (count.clone(), prop_oneof![4 => Just(0u16), 1 => 0u16..2000], prop_oneof![4 => Just(0u16), 1 => 0u16..2000], 2u8..200, 0u8..40, 0u8..4, any::<bool>(), (noise, 0u8..3))
+        .prop_map(|(b, m, a, l, w, o, crlf, (stderr_kib, stderr_when))| Knobs {
             comments_before: b,
             comments_between: m,
             comments_after: a,
@@ -68,6 +76,8 @@ pub fn knobs() -> BoxedStrategy<Knobs> {
             v_width: w,
             io_order: o,
             crlf,
+            stderr_kib,
+            stderr_when,
         })
         .boxed()
 }
@@ -420,7 +430,7 @@ impl Exchange {
 fn run_watched(fake: &Arc<FakeSat>, secs: u64, f: impl FnOnce() -> Result<Value, Failure> + Send + 'static) -> Result<Value, Failure> {
     match with_watchdog(fake, secs, f) {
         Watched::Done(r) => r,
-        Watched::Deadlock(m) => Err(Failure::new("C16/call-does-not-return/child-blocked-on-full-stdout-pipe", m).unshrinkable()),
+        Watched::Deadlock(m) => Err(Failure::new("C16/call-does-not-return/child-blocked-on-full-output-pipe", m).unshrinkable()),
         Watched::Timeout(m) => std::panic::panic_any(Inconclusive(format!("external call watchdog: {}", m))),
     }
 }
